@@ -140,7 +140,15 @@ func (g *Graph) Canon() error {
 	}
 	g.renumber(on.Mapping(), false)
 
-	if on.Dupe {
+	// Look for duplicates in the sorted nodes rather than relying on the sort
+	// having compared them: equal non-root nodes are now adjacent, but the
+	// root is pinned at index 0 so a duplicate of it may be anywhere.
+	dupe := false
+	for i := 1; i < len(g.Nodes) && !dupe; i++ {
+		dupe = g.Nodes[i].Compare(g.Nodes[0]) == 0 ||
+			i > 1 && g.Nodes[i].Compare(g.Nodes[i-1]) == 0
+	}
+	if dupe {
 		// If there were duplicate nodes, the prior sort did not yield a
 		// canonical ordering. Perform a more expensive BFS canonicalisation.
 		// Unfortunately this needs to be done after the edge/root renumbering
